@@ -18,10 +18,10 @@ import (
 
 // freePorts probes n free loopback ports from a per-process range.
 func freePorts(r *vrt.Rng, n int) []int {
-	base := 20000 + (os.Getpid()%400)*100
+	base := 10000 + (os.Getpid()%180)*100
 	var out []int
 	for tries := 0; len(out) < n && tries < 2000; tries++ {
-		p := base + r.Intn(4000)
+		p := base + r.Intn(3000)
 		dup := false
 		for _, q := range out {
 			if q == p {
